@@ -612,7 +612,7 @@ func TestVerifC08(t *testing.T) {
 			continue
 		}
 		completed := -1
-		var total int64
+		var total, points int64
 		outcomes := map[string]int64{}
 		// per-scenario share of the remaining budget
 		scDeadline := time.Now().Add(time.Until(deadline) / time.Duration(len(scs)-si))
@@ -641,6 +641,7 @@ func TestVerifC08(t *testing.T) {
 				rep.Violation(sig, err.Error(), map[string]any{"scenario": sc, "choices": e.Choices, "trace": e.Trace()})
 			})
 			total = st.Executions
+			points = st.ChoicePoints
 			for k, v := range st.Outcomes {
 				outcomes[k] = v
 			}
@@ -650,7 +651,8 @@ func TestVerifC08(t *testing.T) {
 			}
 			completed = b
 		}
-		rep.Count(total, int64(len(outcomes)), 0, 0)
+		// stateless search: states = distinct terminal outcomes, transitions = scheduling decisions taken
+		rep.Count(total, int64(len(outcomes)), int64(len(outcomes)), points)
 		rep.Set("scenario_"+sc.Name, map[string]any{"threads": sc.Threads, "init": sc.Init, "cache": sc.CacheSize, "extra_cache": sc.Extra,
 			"preemption_bound_completed": completed, "executions_at_last_bound": total, "distinct_outcomes": len(outcomes),
 			"sequential_reference_orders": len(seqs)})
